@@ -56,9 +56,23 @@ func extractName(method string, params json.RawMessage) (string, bool) {
 
 // headerSchemaProperty captures the fields needed for x-mcp-header processing.
 type headerSchemaProperty struct {
-	Type       string                          `json:"type"`
+	Type       schemaTypeName                  `json:"type"`
 	XMCPHeader json.RawMessage                 `json:"x-mcp-header,omitempty"`
 	Properties map[string]headerSchemaProperty `json:"properties,omitempty"`
+}
+
+// schemaTypeName is the "type" of a schema property when it is a single name.
+// JSON Schema also allows a list of names there (["string","null"]); such a
+// property cannot carry an x-mcp-header annotation, but its presence must not
+// make the whole schema unreadable, so it decodes as "".
+type schemaTypeName string
+
+func (t *schemaTypeName) UnmarshalJSON(data []byte) error {
+	var name string
+	if err := json.Unmarshal(data, &name); err == nil {
+		*t = schemaTypeName(name)
+	}
+	return nil
 }
 
 // unmarshalSchemaProperties normalizes any InputSchema type
